@@ -14,11 +14,23 @@ MANIFEST = {
             "m_giveup_after_all_retransmissions, m_at_most_max_retransmissions, m_transmissions_exactly (cnt+1 transmissions, each slot "
             "once), m_giveup_exactly_max, m_due_fires, punctual_of_clock, m_single_outcome "
             "(accepted sends = outcome NACKs + ACK completions + queued + delayed), m_never_sent_again; for EVERY event and state "
-            "pdu_and_timeout_never_modified (mid/token/type and stored timeout of a node never change).  m_refines_timer_partial: exact "
+            "pdu_and_timeout_never_modified (mid/token/type and stored timeout of a node never change); for EVERY event list "
+            "m_delayed_has_pending (an established session that still holds a message has a Confirmable pending in the send queue: a "
+            "message waiting for an NSTART slot is never stranded).  Socket-write failures (model with a write oracle, "
+            "Model/MsgLayerW.lean): w_no_failure_is_m (without failing writes it IS the base model, every event list), "
+            "w_failed_retransmission_is_lost_datagram (every state: coap_retransmit with a failing write "
+            "leaves queue, con_active and outputs exactly as with a lost datagram), w_run_tracks_m_partial / w_single_outcome_partial / "
+            "w_attempts_on_schedule_partial (every event list, every pattern of failing RETRANSMISSION writes: same state as the base "
+            "model, so conservation, schedule of the write attempts and give-up after MAX_RETRANSMIT+1 attempts carry over).  "
+            "m_refines_timer_partial: exact "
             "simulation M -> S (same pending list, same observable outputs in order) when CONs are submitted with NSTART room and no "
             "submission/RST races a due retransmission.  M is tied to the compiled code on every run by exact trace equality on a "
             "virtual-time harness (transmissions with timestamps and byte identity, NACKs, con_active, the whole send queue after "
-            "every event), incl. every drop subset of the first 10 datagrams.",
+            "every event), incl. every drop subset of the first 10 datagrams and every lost / write-fails pattern of a message's "
+            "attempts with a second message waiting for its NSTART slot.  Observation, not theorem (oracle on the implementation's "
+            "trace alone): at the end of a run at which the library reports nothing pending and every reply of the peer has been "
+            "delivered, every accepted Confirmable - one held back by NSTART included - for which no ACK/RST/response ever arrived "
+            "has had a NACK-handler call; attempts whose write failed count as transmissions for schedule and retransmission count.",
     "note": "Trusted: Lean kernel (+ propext, Classical.choice, Quot.sound), harness/sim_core.h + msg.c (--wrap clock/network), the scenario "
             "interpreter Driver/Msg.lean, generators/oracles, the hand transcription M (checked on the cases run only).  M-level theorems: "
             "sessions stay established (no hold/disconnect: session failure is C08's), no-wrap range D7, T > 0.  "
@@ -26,7 +38,11 @@ MANIFEST = {
             "retransmitted datagram on the real code (T2).  The exact simulation is `_partial` because S's tick fires everything due "
             "before anything else at an instant (same-instant ORDER differs for a delayed message let in by a give-up, or a submission / "
             "RST racing a due retransmission); those runs are covered by the direct M-level theorems.  coap_adjust_basetime forward is an "
-            "open finding (adjust_commutes_partial + adjust_forward_witness).  Real-time behaviour of epoll_wait is not modelled.",
+            "open finding (adjust_commutes_partial + adjust_forward_witness).  Write failures: the whole-run theorems are `_partial` "
+            "because they exclude a failing write of a FIRST transmission (coap_send then refuses the message; the drain loop of "
+            "coap_session_connected stops - open finding drain_break_strands_delayed, w_drain_break_strands_witness); those runs are "
+            "covered by the trace comparison with the write-failure model and by the oracle only; not combined with keepalive / "
+            "explicit tokens / ICMP events.  Real-time behaviour of epoll_wait is not modelled.",
     "design_ref": "DESIGN.md §4 C06, design/C06.md",
 }
 LEAN_MODULES = ["CoapVerif.Props.C06"]
@@ -42,18 +58,22 @@ REQUIRED_THEOREMS = ["queue_abs_invariant", "insert_commutes", "pop_commutes", "
                      "pdu_and_timeout_never_modified", "pdu_and_timeout_never_modified_step", "sim_gate_order_witness",
                      "m_transmissions_exactly", "m_giveup_exactly_max", "m_wait_exact_and_positive",
                      "m_refines_timer_partial", "m_refines_timer_from_partial", "m_schedule_via_timer_partial",
-                     "m_single_outcome_via_timer_partial"]
+                     "m_single_outcome_via_timer_partial",
+                     "m_delayed_has_pending", "w_failed_retransmission_is_lost_datagram", "w_run_tracks_m_partial",
+                     "w_single_outcome_partial", "w_attempts_on_schedule_partial", "w_drain_break_strands_witness", "w_no_failure_is_m"]
 RULE = ("scenario lines for harness/msg.c (one real client context, 1-3 UDP sessions sharing the send queue, virtual clock, "
         "scripted peer): every drop subset of the first 10 datagrams of an exchange (5 transmissions x 5 ACKs) for several "
         "parameter sets and ACK delays placed just before / at / after each timer deadline; random multi-message, "
         "multi-session scenarios with lost / delayed / duplicated ACKs and RSTs, stray ACK/RST/NON/invalid-code datagrams, "
-        "cancel-by-token, session failure, explicit late I/O steps; raw queue-operation sequences on real coap_queue_t "
+        "cancel-by-token, session failure, explicit late I/O steps; socket writes that fail (fate x: coap_socket_send returns -1) "
+        "- every lost / write-fails pattern over the attempts of a message x every outcome with a second message waiting for its "
+        "NSTART slot, and at random positions of random scenarios; raw queue-operation sequences on real coap_queue_t "
         "nodes (sq); coap_calc_timeout over random and boundary parameters incl. the uint16 wrapping range (tmo); "
         "non-trivial = distinct line on which at least one Confirmable was transmitted / one queue op changed the queue")
 TRUSTED_BASE = ["Lean 4.33 kernel; axioms allowed: propext, Classical.choice, Quot.sound (audited per theorem each run)",
                 "harness/sim_core.h + harness/msg.c (virtual clock and scripted network by --wrap of coap_ticks / coap_socket_send / "
                 "coap_socket_recv), the scenario interpreter in Driver/Msg.lean, generators and oracles in vlib/msglib.py",
-                "M (Model/SendQueue.lean, Model/MsgLayer.lean) is a hand transcription of the anchored C functions; checked "
+                "M (Model/SendQueue.lean, Model/MsgLayer.lean, Model/MsgLayerW.lean) is a hand transcription of the anchored C functions; checked "
                 "against the compiled code by exact trace equality (transmissions with virtual timestamps, NACKs, con_active, "
                 "delay-queue lengths, the whole send queue with absolute deadlines after every event) on the cases run only"]
 ASSUMPTIONS = ["D7: ping_timeout = 0; transmission parameters where Q()'s uint16_t cast does not wrap and T << MAX_RETRANSMIT fits "
@@ -63,6 +83,8 @@ ASSUMPTIONS = ["D7: ping_timeout = 0; transmission parameters where Q()'s uint16
                "(`Punctual`: no I/O step, submission or arrival after the clock was moved past a pending deadline)",
                "M-level theorems (section 7): every event except hold/disconnect, on sessions that are established with an open "
                "socket, NSTART >= 1, nothing delayed initially; pdu_and_timeout_never_modified: no assumption",
+               "w_*_partial: any socket writes of retransmissions may fail, no write of a first transmission does (ghost flag "
+               "`dev` of the write-failure model stays false)",
                "UDP client sessions, block mode off, no OSCORE, unicast; real-time behaviour of epoll_wait is not modelled "
                "(the harness is the event loop)",
                "compiled Lean definitions agree with the kernel's reading of them"]
@@ -91,6 +113,44 @@ def exhaustive(ctx, psets):
                     fates.append("a%d" % d)
             out.append("msg %s %s s:0:c:%d:%d g:400" % (L.sess_word(p, 1), ",".join(fates), 4000 + mask, r))
     return out
+
+
+def exhaustive_wf(ctx, psets):
+    """socket-write failures, swept: ONE session with NSTART 1, message A and message B behind it in the delay queue.
+    Every pattern of {lost on the wire, write fails} over A's write attempts up to the attempt whose reply (ACK or RST, or
+    none at all: TOO_MANY_RETRIES) ends A; then B's attempts: all lost / k-th write fails / ACKed.  So a failing write
+    meets the first transmission in coap_send(), every retransmission, the LAST retransmission before the give-up, and
+    the first transmission out of the delay queue - each followed by every kind of outcome of the message in front."""
+    out = []
+    for pi, p in enumerate(psets):
+        mx = p[4]
+        for j in range(mx + 2):                       # A's attempt number j gets the reply (j = mx+1: never)
+            for mask in range(2 ** min(j, mx + 1)):
+                pre = ["x" if (mask >> k) & 1 else "d" for k in range(min(j, mx + 1))]
+                ends = [[]] if j == mx + 1 else [["a%d" % d] for d in (1, 700)] + [["r40"]]
+                for end in ends:
+                    for bi, b in enumerate((["d"] * (mx + 1), ["x"] + ["d"] * mx, ["d", "x", "a9"], ["d"] * mx + ["x"])):
+                        r = (mask * 29 + j * 7 + pi * 101 + bi * 53) % 256
+                        out.append("msg %s %s s:0:c:%d:%d s:0:c:%d:%d g:400" % (
+                            L.sess_word(p, 1), ",".join(pre + end + b), 7000 + j, r, 7100 + j, (r * 3) % 256))
+    return out
+
+
+def gen_wf(rng):
+    """a random scenario of the c06 flavour in which some socket writes fail (fate `x`): anywhere among the fates, and
+    aimed at the attempts beyond the scripted ones (which would otherwise all be plain losses)"""
+    w = L.gen_scenario(rng, "c06").split()
+    fates = [] if w[2] == "-" else w[2].split(",")
+    nmsg = sum(1 for e in w[3:] if e.startswith("s:"))
+    for _ in range(rng.choice([1, 1, 2, 3, 5])):
+        pos = rng.randrange(0, max(len(fates), rng.choice([1, 2, 3, 5]) * nmsg) + 1)
+        while len(fates) < pos:
+            fates.append(rng.choice(["d", "d", "d", "a50", "r50"]))
+        if pos < len(fates) and rng.random() < 0.5:
+            fates[pos] = "x"
+        else:
+            fates.insert(pos, "x")
+    return " ".join(w[:2] + [",".join(fates)] + w[3:])
 
 
 def gen_sq(rng):
@@ -136,13 +196,17 @@ def generate(ctx, escalate=False):
     rng = ctx.rng
     th = ctx.thorough()
     out = exhaustive(ctx, L.PARAM_SETS[:5] if th else L.PARAM_SETS[:2])
+    out += exhaustive_wf(ctx, L.PARAM_SETS if th else [L.PARAM_SETS[1], L.PARAM_SETS[2]])
     n = 200000 if th else 6000
     if escalate:
         n *= 3
     out += [L.gen_scenario(rng, "c06") for _ in range(n)]
+    out += [gen_wf(rng) for _ in range(n // 2)]
     out += [gen_sq(rng) for _ in range(n)]
     out += [gen_tmo(rng) for _ in range(n)]
-    ctx.cov["exhaustive"] = "every drop subset of the first 10 datagrams (1024) x %d parameter sets" % (5 if th else 2)
+    ctx.cov["exhaustive"] = ("every drop subset of the first 10 datagrams (1024) x %d parameter sets; every lost / write-fails "
+                             "pattern of a message's attempts x every outcome, with a second message waiting for its NSTART "
+                             "slot, x %d parameter sets" % (5 if th else 2, 5 if th else 2))
     return out
 
 
@@ -187,6 +251,16 @@ def known(ctx, c):
     # coap_adjust_basetime() moved forward past at least one surviving node: I = M (transcribed as is), both ≠ S
     if c["input"].startswith("sq ") and c["impl"] == c["model"] and forward_adjust(c["input"]):
         return "adjust_basetime_forward"
+    # coap_session_connected(): the write of a NON taken out of the delay queue fails, no CON of the session is in flight,
+    # `break` leaves the rest of the delay queue without anything that would ever send it.  I = M (the model transcribes the
+    # break), the end-of-run oracle complains about exactly that session
+    w = c["input"].split()
+    if w[0] == "msg" and len(w) > 2 and "x" in w[2].split(",") and c.get("impl") and c.get("model"):
+        it, mt = L.toks(c["impl"]), L.toks(c["model"])
+        if L.split_w(it)[0] == L.split_w(mt)[0] and "nothing pending" in (c.get("why") or ""):
+            for s in L.failed_non_drain_sessions(c["input"], it):
+                if ("of session %d " % s) in c["why"] or ("established session %d " % s) in c["why"]:
+                    return "drain_break_strands_delayed"
     return None
 
 
@@ -205,6 +279,8 @@ def classify(c):
         k += ":giveup"
     if ":rst:" in i:
         k += ":rst"
+    if "txf@" in i:
+        k += ":wfail"
     return k
 
 
@@ -221,6 +297,7 @@ def search(ctx, tie_breaks, proof):
                 del evs[rng.randrange(len(evs) - 1)]
             out.append(" ".join(w[:3] + evs))
     out += [L.gen_scenario(rng, "c06") for _ in range(3000)]
+    out += [gen_wf(rng) for _ in range(1500)]
     return out
 
 
